@@ -202,9 +202,24 @@ class Unit:
                 interp.call_qual(module, f'{cname}.__init__', args, kwargs, bound_self=obj)
                 break
         else:
-            # dataclass-like: fields from keywords
+            # dataclass-like: positional/keyword fields in declaration order, class-level defaults
+            import ast as _ast
+            fields = []
+            for module, cname in self.class_chain(cref.name):
+                info = self.sources.load(module)
+                cnode = info['classes'].get(cname) if info else None
+                if cnode is not None:
+                    for m in cnode.body:
+                        if isinstance(m, _ast.AnnAssign) and isinstance(m.target, _ast.Name):
+                            fields.append((m.target.id, m.value, module))
+                    break
+            for (fname, default, module), v in zip(fields, args):
+                obj.set(fname, v)
             for k, v in kwargs.items():
                 obj.set(k, v)
+            for fname, default, module in fields:
+                if not obj.has(fname) and default is not None and not (isinstance(default, _ast.Call) and _ast.unparse(default.func) == 'field'):
+                    obj.set(fname, interp.eval(default, self.sources.module_env(module, interp)))
             for module, cname in self.class_chain(cref.name):
                 if self.sources.function(module, f'{cname}.__post_init__') is not None:
                     interp.call_qual(module, f'{cname}.__post_init__', [], {}, bound_self=obj)
@@ -679,9 +694,11 @@ class Unit:
                 short = (r.exc_type or '').split('.')[-1]
                 if short not in [x.split('.')[-1] for x in raises]:
                     ctx.oblige(f'{label}.no-raise[{short}]@{r.line}', False, kind='raises', line=r.line)
-                elif on_raise is not None:
-                    for lab, f in on_raise(interp, state, short):
-                        ctx.oblige(f'{label}.on-raise.{lab}', f, kind='post')
+                else:
+                    ctx.oblige(f'{label}.raises[{short}]-is-allowed@{r.line}', True, kind='raises', line=r.line)
+                    if on_raise is not None:
+                        for lab, f in on_raise(interp, state, short):
+                            ctx.oblige(f'{label}.on-raise.{lab}', f, kind='post')
                 return 'raise', r.exc_type
             except PathDone:
                 info['n_step'] += 1
